@@ -165,6 +165,11 @@ def table_arrays(spec, nwn):
         dw = np.array(spec['dw'], dtype=float)[:nwn]
         if len(dw) < nwn:
             dw = np.resize(dw, nwn)
+        if spec.get('ripple'):
+            iw = np.arange(nwn)
+            dw = dw + 0.21 * np.sin(1.7 * iw + 0.3) + 0.13 * ((iw * 7) % 5) / 5.0
+            ip, it = np.meshgrid(np.arange(len(Pg)), np.arange(len(Tg)), indexing='ij')
+            dpt = dpt + 0.17 * np.cos(2.3 * ip + 1.1 * it) + 0.11 * ((ip * 3 + it * 5) % 4) / 4.0
         tab = 10.0 ** (spec['base'] + dpt[:, :, None] + dw[None, None, :])
     return Tg, Pg, tab
 
